@@ -166,60 +166,83 @@ func checkC03(p *Program, r *Result) {
 		return
 	}
 	oc := &originCtx{p: p}
-	// ---- a, b, d in loadChunk
+	// ---- a, b, d: sorts / reversals of the message queue, in whichever iterator method they live
+	type queueCall struct {
+		m    *ssa.Function
+		ci   ssa.CallInstruction
+		name string
+	}
+	var queueCalls []queueCall
 	var reverseCalls []ssa.Instruction
-	for _, ci := range callsIn(lc, func(ssa.CallInstruction) bool { return true }) {
-		name := staticCalleeName(ci.Common())
-		if f := ci.Common().StaticCallee(); f != nil && f.Origin() != nil {
-			name = staticCalleeName2(f.Origin())
-		}
-		args := ci.Common().Args
-		if len(args) == 0 {
+	for _, m := range methodsOf(p, pkgMcap, "indexedMessageIterator") {
+		if m.Blocks == nil {
 			continue
 		}
-		onQueue := false
-		for _, o := range oc.origins(args[0]) {
-			if o == "field:indexedMessageIterator.messageIndexes" {
-				onQueue = true
+		for _, ci := range callsIn(m, func(ssa.CallInstruction) bool { return true }) {
+			name := staticCalleeName(ci.Common())
+			if f := ci.Common().StaticCallee(); f != nil && f.Origin() != nil {
+				name = staticCalleeName2(f.Origin())
 			}
-		}
-		if mi, ok := args[0].(*ssa.MakeInterface); ok {
-			for _, o := range oc.origins(mi.X) {
+			args := ci.Common().Args
+			if len(args) == 0 || !(name == "slices.Reverse" || stableSorts[name] || unstableSorts[name]) {
+				continue
+			}
+			onQueue := false
+			arg0 := args[0]
+			if mi, ok := arg0.(*ssa.MakeInterface); ok {
+				arg0 = mi.X
+			}
+			for _, o := range oc.origins(arg0) {
 				if o == "field:indexedMessageIterator.messageIndexes" {
 					onQueue = true
 				}
 			}
-		}
-		if !onQueue {
-			continue
-		}
-		fname := funcName(lc)
-		pos := p.pos(ci.Pos())
-		order := orderConstOf(ci)
-		switch {
-		case name == "slices.Reverse":
-			reverseCalls = append(reverseCalls, ci)
-		case stableSorts[name]:
-			r.held("C03.a", fname, fmt.Sprintf("sort of the message queue (order %d)", order), pos, name+" is stable")
-		case unstableSorts[name]:
-			r.violated("C03.a", fname, fmt.Sprintf("sort of the message queue (order %d)", order), pos,
-				name+" is not stable: messages of one chunk that share a log time may be reordered (it is an insertion sort, stable by accident, only below 12 elements)")
-		default:
-			continue
-		}
-		if stableSorts[name] || unstableSorts[name] {
-			if len(args) < 2 {
+			if !onQueue {
 				continue
 			}
-			cl := closureOf(args[1])
+			if name == "slices.Reverse" {
+				reverseCalls = append(reverseCalls, ci)
+				continue
+			}
+			queueCalls = append(queueCalls, queueCall{m, ci, name})
+		}
+	}
+	for _, qc := range queueCalls {
+		ci, name := qc.ci, qc.name
+		args := ci.Common().Args
+		fname := funcName(qc.m)
+		pos := p.pos(ci.Pos())
+		cases := comparatorCases(ci)
+		orderLabel := "-1"
+		if len(cases) == 1 {
+			orderLabel = fmt.Sprint(cases[0].order)
+		} else if len(cases) > 1 {
+			orderLabel = "selected per order"
+		}
+		switch {
+		case stableSorts[name]:
+			r.held("C03.a", fname, fmt.Sprintf("sort of the message queue (order %s)", orderLabel), pos, name+" is stable")
+		case unstableSorts[name]:
+			r.violated("C03.a", fname, fmt.Sprintf("sort of the message queue (order %s)", orderLabel), pos,
+				name+" is not stable: messages of one chunk that share a log time may be reordered (it is an insertion sort, stable by accident, only below 12 elements)")
+		}
+		if len(args) < 2 {
+			continue
+		}
+		has2 := false
+		for _, cs := range cases {
+			order := cs.order
+			if order == 2 || order == -1 {
+				has2 = true
+			}
 			construct := fmt.Sprintf("comparator of the message-queue sort (order %d)", order)
 			f, op, why := "", "", ""
 			want := map[int]string{1: "<", 2: ">"}[order]
 			if strings.HasPrefix(name, "slices.") {
 				// cmp-style comparator: must be cmp.Compare of the two timestamps
-				f, op, why = "timestamp", want, cmpShape(cl, order)
+				f, op, why = "timestamp", want, cmpShape(cs.fn, order)
 			} else {
-				f, op, why = lessShape(cl)
+				f, op, why = lessShape(cs.fn)
 			}
 			switch {
 			case why != "":
@@ -233,33 +256,30 @@ func checkC03(p *Program, r *Result) {
 			default:
 				r.held("C03.b", fname, construct, pos, "element[i].timestamp "+op+" element[j].timestamp")
 			}
-			// d: reverse order (also when one sort serves both time orders)
-			if order == 2 || order == -1 {
-				ok := false
-				for _, rc := range reverseCalls {
-					if orderConstOf(rc) == 2 && (instrDominates(rc, ci) || reachableFromSuccs(rc.Block())[ci.Block()]) {
-						ok = true
-					}
+		}
+		// d: reverse order (also when one sort serves both time orders)
+		if has2 {
+			ok := false
+			for _, rc := range reverseCalls {
+				if orderConstOf(rc) == 2 && rc.Parent() == ci.Parent() && (instrDominates(rc, ci) || reachableFromSuccs(rc.Block())[ci.Block()]) {
+					ok = true
 				}
-				if ok {
-					r.held("C03.d", fname, "reverse of the new segment before the reverse-order sort", pos, "slices.Reverse on the queue (under the reverse-order test) precedes the stable sort")
-				} else {
-					r.violated("C03.d", fname, "reverse of the new segment before the reverse-order sort", pos,
-						"in reverse order, messages of one chunk with equal log time must come out in reverse file order; the newly indexed segment is not reversed before the stable sort")
-				}
+			}
+			if ok {
+				r.held("C03.d", fname, "reverse of the new segment before the reverse-order sort", pos, "slices.Reverse on the queue (under the reverse-order test) precedes the stable sort")
+			} else {
+				r.violated("C03.d", fname, "reverse of the new segment before the reverse-order sort", pos,
+					"in reverse order, messages of one chunk with equal log time must come out in reverse file order; the newly indexed segment is not reversed before the stable sort")
 			}
 		}
 	}
 	// ---- f: the slice handed to the sort is the queue as it is at that moment: no store to it.messageIndexes or
 	// it.curMessageIndex lies between taking the window and sorting it
 	r.rule("C03.f", "the sorted window is the current pending queue (not taken before the queue was compacted)", 1)
-	for _, ci := range callsIn(lc, func(ci ssa.CallInstruction) bool {
-		n := staticCalleeName(ci.Common())
-		if f := ci.Common().StaticCallee(); f != nil && f.Origin() != nil {
-			n = staticCalleeName2(f.Origin())
-		}
-		return stableSorts[n] || unstableSorts[n]
-	}) {
+	for _, qc := range queueCalls {
+		ci := qc.ci
+		lc := qc.m
+
 		arg := ci.Common().Args[0]
 		if mi, ok := arg.(*ssa.MakeInterface); ok {
 			arg = mi.X
@@ -618,3 +638,58 @@ func checkReloopAfterLoadAs(p *Program, r *Result, ni *ssa.Function, rule string
 }
 
 var _ = types.Typ
+
+type cmpCase struct {
+	order int
+	fn    *ssa.Function
+}
+
+// comparatorCases: the comparator function(s) a sort call can run with and the read order under which each is chosen.
+// A function literal passed directly belongs to the order test that dominates the call; a comparator variable that is
+// assigned in the arms of a switch over it.order (a phi of closures) yields one case per non-nil arm.
+func comparatorCases(ci ssa.CallInstruction) []cmpCase {
+	args := ci.Common().Args
+	if len(args) < 2 {
+		return nil
+	}
+	switch x := args[1].(type) {
+	case *ssa.Phi:
+		var out []cmpCase
+		for i, e := range x.Edges {
+			if isNilConst(e) {
+				continue
+			}
+			pred := x.Block().Preds[i]
+			out = append(out, cmpCase{orderConstOf(pred.Instrs[len(pred.Instrs)-1]), closureOf(e)})
+		}
+		return out
+	}
+	return []cmpCase{{orderConstOf(ci), closureOf(args[1])}}
+}
+
+// nilGuarded: the call is dominated by the true branch of `v != nil` (or the false branch of `v == nil`).
+func nilGuarded(ci ssa.Instruction, v ssa.Value) bool {
+	for d := ci.Block(); d != nil; d = d.Idom() {
+		if len(d.Preds) != 1 {
+			continue
+		}
+		pred := d.Preds[0]
+		iff, ok := pred.Instrs[len(pred.Instrs)-1].(*ssa.If)
+		if !ok {
+			continue
+		}
+		conds := []ssa.Value{iff.Cond}
+		for _, c := range conds {
+			b, ok := c.(*ssa.BinOp)
+			if !ok {
+				continue
+			}
+			if (b.X == v && isNilConst(b.Y)) || (b.Y == v && isNilConst(b.X)) {
+				if (b.Op == token.NEQ && pred.Succs[0] == d) || (b.Op == token.EQL && pred.Succs[1] == d) {
+					return true
+				}
+			}
+		}
+	}
+	return false
+}
